@@ -95,6 +95,7 @@ impl Aggregate {
         self.add("fault.rwlock_contended", s.rt_faults[5]);
         self.add("fault.spurious_wake_or_timeout", s.spurious_wakes);
         self.add("fault.thread_stall_decisions", s.starve_applied);
+        self.add("fault.thread_paused_at_site", s.pauses_applied);
         self.add("fault.db_latency_points", s.db_latency_points);
         self.add("fault.db_error_persistent", s.db_errors_persistent);
         self.add("fault.db_error_once", s.db_errors_once);
